@@ -55,6 +55,7 @@ import (
 	"github.com/segmentio/kafka-go/protocol/initproducerid"
 	"github.com/segmentio/kafka-go/protocol/joingroup"
 	"github.com/segmentio/kafka-go/protocol/leavegroup"
+	"github.com/segmentio/kafka-go/protocol/listgroups"
 	"github.com/segmentio/kafka-go/protocol/listoffsets"
 	"github.com/segmentio/kafka-go/protocol/listpartitionreassignments"
 	"github.com/segmentio/kafka-go/protocol/metadata"
@@ -87,11 +88,11 @@ func i32s(xs []int32, sep string) string {
 	return strings.Join(s, sep)
 }
 
-// encMeta: "<controller>/<id@host,…>/<name:err:internal:idx=leader=err=r.r,…|…>"
+// encMeta: "<controller>/<id@host@port,…>/<name:err:internal:idx=leader=err=r.r,…|…>"
 func encMeta(m *metadata.Response) string {
 	var bs, ts []string
 	for _, b := range m.Brokers {
-		bs = append(bs, fmt.Sprintf("%d@%s", b.NodeID, b.Host))
+		bs = append(bs, fmt.Sprintf("%d@%s@%d", b.NodeID, b.Host, b.Port))
 	}
 	for _, t := range m.Topics {
 		var ps []string
@@ -129,7 +130,7 @@ func canonLayout(c protocol.Cluster) string {
 	var bs, ts []string
 	for _, id := range c.BrokerIDs() {
 		b := c.Brokers[id]
-		bs = append(bs, fmt.Sprintf("%d>%d@%s", id, b.ID, b.Host))
+		bs = append(bs, fmt.Sprintf("%d>%d@%s@%d", id, b.ID, b.Host, b.Port))
 	}
 	for _, n := range c.TopicNames() {
 		t := c.Topics[n]
@@ -333,6 +334,8 @@ func build(s reqSpec) protocol.Message {
 			r.Resources = append(r.Resources, incrementalalterconfigs.RequestResource{ResourceType: int8(t), ResourceName: x[1]})
 		}
 		return r
+	case "listgroups":
+		return &listgroups.Request{}
 	case "findcoordinator":
 		return &findcoordinator.Request{Key: s.group}
 	case "apiversions":
@@ -386,7 +389,7 @@ func randomMeta(r *rand.Rand, wild bool) *metadata.Response {
 	nb := 1 + r.Intn(5)
 	ids := r.Perm(8)[:nb]
 	for _, id := range ids {
-		m.Brokers = append(m.Brokers, metadata.ResponseBroker{NodeID: int32(id), Host: "b" + strconv.Itoa(id), Port: 9092})
+		m.Brokers = append(m.Brokers, metadata.ResponseBroker{NodeID: int32(id), Host: "b" + strconv.Itoa(id), Port: 9092 + int32(r.Intn(2))})
 	}
 	m.ControllerID = int32(ids[r.Intn(nb)])
 	if wild && r.Intn(6) == 0 {
@@ -656,6 +659,9 @@ func newScenario(r *rand.Rand, ttl time.Duration) *scenario {
 		np := 1 + r.Intn(4)
 		for j := 0; j < np; j++ {
 			l := int32(ids[r.Intn(nb)])
+			if r.Intn(12) == 0 { // no leader at the moment (election) / a leader id that is not a listed broker
+				l = []int32{-1, 8}[r.Intn(2)]
+			}
 			t.Parts[int32(j)] = &fakecluster.Part{Leader: l, Replicas: []int32{l}, Isr: []int32{l}, Last: int64(r.Intn(100))}
 		}
 		if r.Intn(10) == 0 {
@@ -735,7 +741,7 @@ func (s *scenario) send(spec reqSpec) {
 		return id
 	}
 	switch {
-	case spec.pkg == "describegroups":
+	case spec.pkg == "describegroups" || (spec.pkg == "deletegroups" && len(spec.groups) > 0):
 		var cs []int32
 		for _, g := range spec.groups {
 			cs = append(cs, answered(g, 0))
@@ -769,15 +775,22 @@ func (s *scenario) send(spec reqSpec) {
 	var got []string
 	for _, e := range s.c.Since(mark) {
 		if e.ApiKey == key && !(e.First && key == protocol.ApiVersions) {
-			got = append(got, fmt.Sprintf("b%d@v%d", e.Broker, e.Version))
+			got = append(got, fmt.Sprintf("b%d~%s@v%d", e.Broker, e.Addr, e.Version))
 		}
 	}
 	sort.Strings(got)
+	kind := ""
+	if err != nil {
+		kind = errKind(err)
+		if spec.pkg == "listgroups" { // Merge reports the first failed broker in Go map order: any of the parts' errors
+			kind = "some"
+		}
+	}
 	switch {
 	case err != nil && len(got) == 0:
-		emit(op, "err "+errKind(err))
+		emit(op, "err "+kind)
 	case err != nil:
-		emit(op, strings.Join(got, ",")+" err "+errKind(err))
+		emit(op, strings.Join(got, ",")+" err "+kind)
 	default:
 		emit(op, dash(strings.Join(got, ",")))
 	}
@@ -786,7 +799,11 @@ func (s *scenario) send(spec reqSpec) {
 func (s *scenario) randomSpec() reqSpec {
 	r := s.r
 	meta := s.c.LastMeta()
-	switch r.Intn(10) {
+	switch r.Intn(12) {
+	case 10:
+		return reqSpec{pkg: pick(r, resourcePkgs), resources: randomResources(r)}
+	case 11:
+		return reqSpec{pkg: "listgroups"}
 	case 0, 1, 2, 3:
 		// rawproduce needs pre-encoded record batches on the wire: its Broker() is covered at F level only
 		return reqSpec{pkg: pick(r, []string{"produce", "fetch", "listoffsets"}), tps: randomTps(r, meta, r.Intn(4) == 0)}
@@ -820,7 +837,34 @@ func (s *scenario) mutate() {
 	reset := false
 	s.c.Lock()
 	ids := s.c.BrokerIDs()
-	switch r.Intn(6) {
+	switch r.Intn(8) {
+	case 6, 7: // a broker re-registers at another address (never the bootstrap broker, whose address the caller dials)
+		var cand []int32
+		for _, id := range ids {
+			if id != s.boot {
+				cand = append(cand, id)
+			}
+		}
+		if len(cand) > 0 {
+			id := cand[r.Intn(len(cand))]
+			b := s.c.Brokers[id]
+			switch r.Intn(4) {
+			case 0, 1: // same host, another port
+				s.c.MoveBroker(id, b.Host, 9092+(b.Port-9092+1+int32(r.Intn(3)))%5)
+			case 2: // another host
+				s.c.MoveBroker(id, fmt.Sprintf("h%d-%d", id, r.Intn(1000)), b.Port)
+			case 3: // two brokers trade places
+				if len(cand) > 1 {
+					o := s.c.Brokers[cand[r.Intn(len(cand))]]
+					if o.ID != id {
+						h1, p1, h2, p2 := b.Host, b.Port, o.Host, o.Port
+						s.c.MoveBroker(id, "tmp", 1)
+						s.c.MoveBroker(o.ID, h1, p1)
+						s.c.MoveBroker(id, h2, p2)
+					}
+				}
+			}
+		}
 	case 0, 1: // leader moves
 		for _, t := range s.c.Topics {
 			for _, p := range t.Parts {
@@ -834,6 +878,11 @@ func (s *scenario) mutate() {
 		for id := int32(0); id < 9; id++ {
 			if _, ok := s.c.Brokers[id]; !ok {
 				b := s.c.AddBroker(id)
+				for _, o := range s.c.Brokers { // addresses are unique in a cluster (another broker may have moved here)
+					if o.ID != id && o.Addr() == b.Addr() {
+						b.Host = fmt.Sprintf("a%d-%d", id, r.Intn(100000))
+					}
+				}
 				if r.Intn(2) == 0 {
 					randomVersions(r, b)
 				}
